@@ -110,4 +110,22 @@ theorem louvainFit_spec {argsort : List Int → List Nat} (hs : ∀ key, IsArgso
     obtain ⟨f, hf, hv, _⟩ := postProcess_spec hs hl hc sortClusters shuffle bipartite nRow hidx
     exact ⟨f, c', by simp [h, hf, bind, Except.bind, pure, Except.pure], hv⟩
 
+theorem SamePartition.trans {α β γ : Type} [DecidableEq α] [DecidableEq β] [DecidableEq γ]
+    {a : List α} {b : List β} {c : List γ} (h1 : SamePartition a b) (h2 : SamePartition b c) :
+    SamePartition a c :=
+  ⟨h1.1.trans h2.1, fun i hi j hj => (h1.2 i hi j hj).trans (h2.2 i (h1.1 ▸ hi) j (h1.1 ▸ hj))⟩
+
+/-- ★ `PropagationClustering.fit` after the sweeps: whatever labels the sweeps leave, the compaction (and the
+    relabelling by size when `sort_clusters`) gives a valid clustering with the same partition -/
+theorem propagationPost_spec {argsort : List Int → List Nat} (hs : ∀ key, IsArgsort key (argsort key))
+    (raw : List Int) (sortClusters bipartite : Bool) (nRow : Nat) :
+    ValidClustering raw.length (allLabels (propagationPost argsort raw sortClusters bipartite nRow)) sortClusters ∧
+    SamePartition raw (allLabels (propagationPost argsort raw sortClusters bipartite nRow)) := by
+  obtain ⟨hlen, hsame, k', hvalid⟩ := sortedLabels_spec hs sortClusters (inverse_contiguous raw)
+  have : propagationPost argsort raw sortClusters bipartite nRow =
+      splitVars bipartite nRow (sortedLabels argsort sortClusters (inverse raw)) := rfl
+  rw [this, allLabels_splitVars]
+  exact ⟨validClustering_of_validK (hlen.trans (inverse_length raw)) hvalid,
+    (inverse_samePartition raw).trans hsame⟩
+
 end SkNet.Clustering
